@@ -69,6 +69,10 @@ def run(name, pids):
     rc, out = sh("git -C /repo apply %s" % os.path.join(d, "patch.diff"))
     if rc != 0:
         print("apply failed", out); return 2
+    saved = {}
+    for pid in pids:       # evidence belongs to runs on the unchanged tree: keep it across the seeded run
+        ev = os.path.join(VERIF, "evidence", pid + ".json")
+        saved[ev] = open(ev, "rb").read() if os.path.exists(ev) else None
     try:
         for pid in pids:
             t = time.time()
@@ -88,6 +92,10 @@ def run(name, pids):
     finally:
         sh("git -C /repo checkout -- .")
         sh("rm -f %s/replays/*.json" % VERIF)
+        for ev, data in saved.items():
+            if data is not None:
+                with open(ev, "wb") as f:
+                    f.write(data)
     json.dump(meta, open(os.path.join(d, "meta.json"), "w"), indent=1)
     return 0
 
